@@ -167,7 +167,7 @@ static Out run_seq(Scn const &sc, int start, std::vector<int> const &ops, bool s
   Out o;
   Run r; r.sc = &sc; r.script = script;
   r.px = new_px(sc);
-  if (start >= 1 && r.px->config(all_conf(sc)) != 0) { fprintf(stderr, "HARNESS-ERROR: scenario rejected: %s\n", r.px->errtxt.c_str()); _exit(2); }
+  if (start >= 1 && r.px->config(all_conf(sc)) != 0) { fprintf(stderr, "HARNESS-ERROR: scenario rejected: %s\n", r.px->errtxt.c_str()); _exit(3); }
   if (start == 2) for (long s = 0; s < 3; s++) { place(*r.px, s); if (r.px->step(s) != 0) { fprintf(stderr, "HARNESS-ERROR: step: %s\n", r.px->errtxt.c_str()); _exit(2); } r.next = s + 1; }
   (void) pre;
   for (int op : ops) apply(r, op);
@@ -310,7 +310,7 @@ static void p3_callback(Scn const &sc, Result &r)
       std::string conf = "scriptedColvarForces on\n" + std::string(after ? "scriptingAfterBiases on\n" : "scriptingAfterBiases off\n");
       for (auto &c : sc.cvc) conf += c;
       if (with_biases) for (auto &c : sc.bc) conf += c;
-      if (px->config(conf) != 0) { fprintf(stderr, "HARNESS-ERROR: callback configuration rejected: %s\n", px->errtxt.c_str()); _exit(2); }
+      if (px->config(conf) != 0) { fprintf(stderr, "HARNESS-ERROR: callback configuration rejected: %s\n", px->errtxt.c_str()); _exit(3); }
       std::string n = sc.cvn[vi];
       // force text: the menu value in every component
       colvar *cv0 = px->cv(n);
